@@ -910,4 +910,23 @@ theorem exited_inert {s : State} (ha : AllOk s) {i : Nat} (h : (s.arbs i).exited
   · cases hh : s.arbs i; simp [hh] at hg; simp [hg]
   · cases hh : s.arbs i; simp [hh] at h; simp [h]
 
+theorem mem_execIds {l : List Cmd} {t : Nat} : t ∈ execIds l ↔ Cmd.exec t ∈ l := by
+  induction l with
+  | nil => simp [execIds]
+  | cons x r ih => cases x <;> simp [execIds, ih]
+
+
+theorem blockOnFuel_spec {α : Type} (f : Fut α) (fuel : Nat) (h : f.pend < fuel) :
+    blockOnFuel fuel f = some f.out := by
+  induction fuel generalizing f with
+  | zero => omega
+  | succ n ih =>
+    obtain ⟨p, o⟩ := f
+    cases p with
+    | zero => simp [blockOnFuel, Fut.poll]
+    | succ p =>
+      simp only [blockOnFuel, Fut.poll]
+      exact ih ⟨p, o⟩ (by simp at h ⊢; omega)
+
+
 end ActixNet.Rt
